@@ -680,6 +680,17 @@ pub fn run_store_case(seed: u64, root: &Path, cnt: &Counters, sample: usize) -> 
                         problems.push(Problem { class: "absolute_mode_opened", what: format!("{what}: the reader reports corruption, yet the store opened in absolute-consistency mode"), alt: Some(alt) });
                         continue;
                     }
+                    // a byte or bit changed inside the segment (no cut, no zeroed tail) that makes
+                    // commits disappear is damage the checksums see: in absolute-consistency
+                    // mode the store may not open with less than everything
+                    if absolute && matches!(alt, Alt::Byte(_) | Alt::Bit(..)) {
+                        if let Some(n) = which_prefix(seed, total, &st) {
+                            if n < total {
+                                problems.push(Problem { class: "absolute_mode_lost_commits", what: format!("{what}: opened in absolute-consistency mode without an error, with {} of {} commits", n, total), alt: Some(alt) });
+                                continue;
+                            }
+                        }
+                    }
                     match which_prefix(seed, total, &st) {
                         None => problems.push(Problem { class: "store_not_prefix", what: format!("{what}: the recovered state ({} keys) is not the state after any prefix of the commits", st.len()), alt: Some(alt) }),
                         Some(n) if n < must_have => problems.push(Problem { class: "valid_record_lost", what: format!("{what}: {} commits lie wholly before the alteration, the recovered state holds {}", must_have, n), alt: Some(alt) }),
